@@ -358,8 +358,11 @@ class ModelCacheMixin:
 
             return min(cached, key=signed_key if signed else lambda v: v)
 
+        # models are only cached for variables this solver already knows about, so only then will the cache
+        # contain the model that attains the optimum
+        cacheable = self.variables.issuperset(e.variables)
         m = super().min(e, extra_constraints=extra_constraints, signed=signed, exact=exact)
-        if len(extra_constraints) == 0:
+        if len(extra_constraints) == 0 and cacheable:
             exhausted[e.hash()] = e
         return m
 
@@ -376,8 +379,11 @@ class ModelCacheMixin:
 
             return max(cached, key=signed_key if signed else lambda v: v)
 
+        # models are only cached for variables this solver already knows about, so only then will the cache
+        # contain the model that attains the optimum
+        cacheable = self.variables.issuperset(e.variables)
         m = super().max(e, extra_constraints=extra_constraints, signed=signed, exact=exact)
-        if len(extra_constraints) == 0:
+        if len(extra_constraints) == 0 and cacheable:
             exhausted[e.hash()] = e
         return m
 
